@@ -275,6 +275,14 @@ PROPS["C07"] = {
     ],
 }
 
+# libFuzzer campaigns (thorough tier only): (property, family, target)
+_FUZZ = [("C01", "locks", "C01"), ("C02", "locks", "C02"), ("C03", "lrcow", "C03"), ("C04", "lrcow", "C04"), ("C05", "rcu", "C05"), ("C06", "deferred", "C06"),
+         ("C08", "locks", "C08"), ("C09", "prims", "C09"), ("C10", "prims", "C10"), ("C11", "prims", "C11"), ("C12", "rcu", "C12"), ("C13", "rcu", "C13"), ("C13", "rcu", "C13f"),
+         ("C14", "c14", "C14"), ("C15", "atomicreg", "C15a"), ("C16", "containers", "C16"), ("C17", "containers", "C17s"), ("C18", "containers", "C18"),
+         ("C19", "tripwire", "C19"), ("C20", "lrcow", "C20lr"), ("C20", "deferred", "C20d")]
+for _pid, _fam, _tgt in _FUZZ:
+    PROPS[_pid]["stages"].append({"family": _fam, "flavour": "fuzz", "target": _tgt, "fuzz": True, "tiers": ("thorough",), "fuzz_secs": 75, "jobs": 8})
+
 ALL_IDS = ["C%02d" % i for i in range(1, 21)]
 NOT_YET = "check not built yet in this session (planned, see DESIGN.md §5); not claimed until its machinery exists and has passed its mutant self-test"
 
